@@ -117,8 +117,8 @@ def _js(r):
 class EnvHist(Engine):
     name = "envhist"
     props = ("C14",)
-    nruns = {"quick": 3000, "thorough": 600}
-    budgets = {"quick": 40.0, "thorough": 540.0}
+    nruns = {"quick": 2000, "thorough": 600}
+    budgets = {"quick": 90.0, "thorough": 540.0}
     rule = (
         "script = world (2-level type hierarchy, 4-6 fluents, free parameters, 0-2 interpreted functions) + pool of "
         "6-12 expressions that share sub-expressions + 15-40 walker calls on ONE Environment (simplify, "
@@ -128,8 +128,9 @@ class EnvHist(Engine):
         "callback failure or by MemoryError at a chosen line event; each unfaulted call is compared with the same call "
         "in a fresh Environment. non-trivial = a failure happened inside a library call (fired injected fault, or a "
         "natural failure) AND at least 3 later judged calls share a non-leaf sub-expression with the failed call; "
-        "distinct = digest of the (operation kind, outcome class) sequence. Thorough tier: every line-event position "
-        "of the faulted call (all when <= 600, 600 strided otherwise)."
+        "distinct = digest of the (operation kind, outcome class) sequence. For 1 script in 160 (quick) or every script "
+        "(thorough) the fault position is ENUMERATED: every line-event position of the faulted call (all when <= 600, "
+        "600 strided otherwise), one execution of the whole history per position."
     )
     real_components = (
         "Environment singletons: ExpressionManager, TypeChecker, Simplifier, Substituter, FreeVarsExtractor, "
@@ -144,12 +145,16 @@ class EnvHist(Engine):
     )
 
     def level_for(self, tier):
-        return "fault_enumeration" if tier == "thorough" else "exploration"
+        # both tiers enumerate every fault position of the faulted call for a share of the
+        # scripts (quick: 1 script in 160, thorough: all of them)
+        return "fault_enumeration"
 
     def profiles(self, tier):
         if tier == "thorough":
-            return ["async"]
-        return ["reject", "async", "callback", "async"]
+            return ["enum"]
+        p = ["reject", "async", "callback", "async"] * 40
+        p[7] = "enum"
+        return p
 
     # ----------------------------------------------------------------- generate
     def gen_world(self, rw):
@@ -195,6 +200,8 @@ class EnvHist(Engine):
 
     def generate(self, seed, profile, tier):
         rw, rp, ro, rf = (stream(seed, l) for l in ("world", "pool", "ops", "faults"))
+        if profile == "enum":
+            profile = "async"
         world = self.gen_world(rw)
         tmap = dict(world["types"])
         params = [(n, t) for n, t in world["params"]]
@@ -409,7 +416,7 @@ class EnvHist(Engine):
 
     # ------------------------------------------------------------------ expand
     def expand(self, script, tier):
-        if tier != "thorough":
+        if tier != "thorough" and script.get("profile") != "enum":
             return None
         ops = script["ops"]
         idx = [i for i, op in enumerate(ops) if op.get("fault", {}).get("kind") == "async_mem"]
